@@ -1,6 +1,7 @@
 //! Reference models. They never call Kolibrie code.
 pub mod sparql_ast;
 pub mod sparql_eval;
+pub mod update;
 pub mod expiry_fixpoint;
 pub mod window;
 pub mod termdb;
@@ -9,6 +10,7 @@ pub mod termdb;
 pub fn selftest() -> Vec<String> {
     let mut errs = Vec::new();
     errs.extend(sparql_eval::selftest());
+    errs.extend(update::selftest());
     errs.extend(expiry_fixpoint::selftest());
     errs.extend(window::selftest());
     errs.extend(termdb::selftest());
